@@ -2,6 +2,8 @@ import RallyModel.TrackSpec
 import RallyProofs.TrackSpec
 import RallyModel.TrackTemplate
 import RallyProofs.TrackTemplate
+import RallyModel.TrackThroughput
+import RallyProofs.TrackThroughput
 import RallyGen.OpTypes
 import RallyGen.SchemaRules
 /-!
@@ -835,6 +837,160 @@ theorem load_rejects_param_not_read_from_context (tbl : OpTable) (sel : Option T
 
 end Template
 
+/-! ## 3c. Throughput targets: the grammar of `target-throughput` strings -/
+section Throughput
+open TrackThroughput
+
+/-- the documented shape of a throughput string: a decimal number — digits, optionally a point followed by at least one
+    digit; the digits before the point may be missing (`.5`) — one white-space character, a unit made of word characters
+    and `/s` -/
+structure ThroughputShape (m : Match) : Prop where
+  intDigits : ∀ c ∈ m.intPart, isDigit c = true
+  fracDigits : ∀ fp, m.fracPart = some fp → fp ≠ [] ∧ ∀ c ∈ fp, isDigit c = true
+  someDigit : m.fracPart = none → m.intPart ≠ []
+  unitShape : ∃ w, w ≠ [] ∧ (∀ c ∈ w, isWord c = true) ∧ m.unit = w ++ slashS
+
+/-- **throughput_match_sound**: whatever `re.match(THROUGHPUT_PATTERN, s)` accepts starts with a well-formed number text,
+    one white-space character and the unit — and the value the loader uses (`Match.decimal`) is the number that text denotes -/
+theorem throughput_match_sound (s : TrackThroughput.Str) (m : Match) (h : matchThroughput s = some m) :
+    ThroughputShape m ∧ ∃ ws rest, isSpace ws = true ∧ s = m.valueText ++ ws :: (m.unit ++ rest) := by
+  unfold matchThroughput at h
+  cases hn : matchNumber s with
+  | none => rw [hn] at h; simp at h
+  | some t =>
+    obtain ⟨ip, fp, r⟩ := t
+    rw [hn] at h
+    simp only at h
+    cases r with
+    | nil => simp at h
+    | cons ws r' =>
+      simp only at h
+      by_cases hws : isSpace ws = true
+      · rw [if_pos hws] at h
+        obtain ⟨w1, w2, w3⟩ := splitWhile_spec isWord r'
+        split at h
+        · rename_i tail htail
+          by_cases hw : (splitWhile isWord r').1 ≠ []
+          · rw [if_pos hw] at h
+            injection h with h
+            subst h
+            -- the number part
+            obtain ⟨d1, d2, d3⟩ := splitWhile_spec isDigit s
+            unfold matchNumber at hn
+            simp only at hn
+            have hunit : r' = (splitWhile isWord r').1 ++ (slashS ++ tail) := by
+              calc r' = (splitWhile isWord r').1 ++ (splitWhile isWord r').2 := w1
+                _ = (splitWhile isWord r').1 ++ (slashS ++ tail) := by rw [htail]; rfl
+            split at hn
+            · rename_i r2 hr1
+              obtain ⟨e1, e2, e3⟩ := splitWhile_spec isDigit r2
+              by_cases hfp : (splitWhile isDigit r2).1 ≠ []
+              · rw [if_pos hfp] at hn
+                simp only [Option.some.injEq, Prod.mk.injEq] at hn
+                obtain ⟨hip, hfpv, hr⟩ := hn
+                subst hip hfpv
+                refine ⟨⟨d2, ?_, by simp, ⟨_, hw, w2, rfl⟩⟩, ws, tail, hws, ?_⟩
+                · intro fp' hfp'
+                  simp only [Option.some.injEq] at hfp'
+                  subst hfp'
+                  exact ⟨hfp, e2⟩
+                · have hs : s = (splitWhile isDigit s).1 ++ '.' :: ((splitWhile isDigit r2).1 ++
+                      ws :: ((splitWhile isWord r').1 ++ (slashS ++ tail))) := by
+                    rw [← hunit, ← hr, ← e1, ← hr1]
+                    exact d1
+                  simpa [Match.valueText, List.append_assoc] using hs
+              · rw [if_neg hfp] at hn
+                by_cases hip : (splitWhile isDigit s).1 ≠ []
+                · rw [if_pos hip] at hn
+                  simp only [Option.some.injEq, Prod.mk.injEq] at hn
+                  obtain ⟨h1, h2, h3⟩ := hn
+                  rw [hr1] at h3
+                  injection h3 with h3 _
+                  exact absurd h3.symm (isSpace_ne_dot hws)
+                · rw [if_neg hip] at hn
+                  simp at hn
+            · rename_i hnd
+              by_cases hip : (splitWhile isDigit s).1 ≠ []
+              · rw [if_pos hip] at hn
+                simp only [Option.some.injEq, Prod.mk.injEq] at hn
+                obtain ⟨h1, h2, h3⟩ := hn
+                subst h1 h2
+                refine ⟨⟨d2, by simp, fun _ => hip, ⟨_, hw, w2, rfl⟩⟩, ws, tail, hws, ?_⟩
+                have hs : s = (splitWhile isDigit s).1 ++ ws :: ((splitWhile isWord r').1 ++ (slashS ++ tail)) := by
+                  rw [← hunit, ← h3]
+                  exact d1
+                simpa [Match.valueText, List.append_assoc] using hs
+              · rw [if_neg hip] at hn
+                simp at hn
+          · rw [if_neg hw] at h
+            simp at h
+        · simp at h
+      · rw [if_neg hws] at h
+        simp at h
+
+/-- **throughput_match_complete**: every string of the documented shape is accepted with exactly those parts — with or
+    without digits before the point (`.5 ops/s`), whatever follows the unit -/
+theorem throughput_match_complete (m : Match) (ws : Char) (rest : TrackThroughput.Str)
+    (hm : ThroughputShape m) (hws : isSpace ws = true) :
+    matchThroughput (m.valueText ++ ws :: (m.unit ++ rest)) = some m := by
+  obtain ⟨w, hw1, hw2, hunit⟩ := hm.unitShape
+  have hword : splitWhile isWord (m.unit ++ rest) = (w, slashS ++ rest) := by
+    rw [hunit, List.append_assoc]
+    apply splitWhile_append _ _ _ hw2
+    intro c r hcr
+    simp only [slashS, List.cons_append, List.nil_append, List.cons.injEq] at hcr
+    rw [← hcr.1]
+    exact slash_not_word
+  have hnum : matchNumber (m.valueText ++ ws :: (m.unit ++ rest)) = some (m.intPart, m.fracPart, ws :: (m.unit ++ rest)) := by
+    unfold matchNumber
+    cases hfp : m.fracPart with
+    | none =>
+      have hsplit : splitWhile isDigit (m.intPart ++ ws :: (m.unit ++ rest)) = (m.intPart, ws :: (m.unit ++ rest)) := by
+        apply splitWhile_append _ _ _ hm.intDigits
+        intro c r hcr
+        injection hcr with h1 _
+        rw [← h1]
+        exact isSpace_not_digit hws
+      simp only [Match.valueText, hfp, hsplit]
+      have hne := hm.someDigit hfp
+      split
+      · rename_i r2 heq
+        injection heq with h1 _
+        exact absurd h1 (isSpace_ne_dot hws)
+      · rw [if_pos hne]
+    | some fp =>
+      obtain ⟨hfp1, hfp2⟩ := hm.fracDigits fp hfp
+      have hsplit : splitWhile isDigit (m.intPart ++ '.' :: (fp ++ ws :: (m.unit ++ rest))) =
+          (m.intPart, '.' :: (fp ++ ws :: (m.unit ++ rest))) := by
+        apply splitWhile_append _ _ _ hm.intDigits
+        intro c r hcr
+        injection hcr with h1 _
+        rw [← h1]
+        exact dot_not_digit
+      have hsplit2 : splitWhile isDigit (fp ++ ws :: (m.unit ++ rest)) = (fp, ws :: (m.unit ++ rest)) := by
+        apply splitWhile_append _ _ _ hfp2
+        intro c r hcr
+        injection hcr with h1 _
+        rw [← h1]
+        exact isSpace_not_digit hws
+      simp only [Match.valueText, hfp, List.append_assoc, List.cons_append, hsplit, hsplit2]
+      rw [if_pos hfp1]
+  unfold matchThroughput
+  rw [hnum]
+  simp only [hws, if_true, hword, slashS, List.cons_append, List.nil_append]
+  rw [if_pos hw1]
+  cases m
+  simp_all [slashS]
+
+/-- the value group never carries an exponent, a sign or a trailing point: such spellings are not throughput strings -/
+theorem throughput_unit_ends_with_slash_s (s : TrackThroughput.Str) (m : Match) (h : matchThroughput s = some m) :
+    ∃ w, m.unit = w ++ ['/', 's'] :=
+  let ⟨wf, _⟩ := throughput_match_sound s m h
+  let ⟨w, _, _, hu⟩ := wf.unitShape
+  ⟨w, hu⟩
+
+end Throughput
+
 /-- the `type` declarations of the schema file the model relies on: every position the typed view `Spec` reads
     (a `Nat` field relies on `integer`, a `Str` field on `string`, …); template families, `cluster-settings` and the
     pass-through parameters of operations are not interpreted by the model -/
@@ -1230,6 +1386,27 @@ example : ¬ ∃ t ∈ [tplLocals], TemplateReads t "index_count".toList := by
   decide +kernel
 
 end TemplateExamples
+
+
+/-! throughput strings -/
+section ThroughputExamples
+open TrackThroughput
+
+example : matchThroughput ".5 ops/s".toList = some ⟨[], some "5".toList, "ops/s".toList⟩ := by decide +kernel
+example : matchThroughput "12.50 MB/s trailing".toList = some ⟨"12".toList, some "50".toList, "MB/s".toList⟩ := by decide +kernel
+example : matchThroughput "5000 docs/s".toList = some ⟨"5000".toList, none, "docs/s".toList⟩ := by decide +kernel
+example : matchThroughput "5. ops/s".toList = none ∧ matchThroughput "1e3 ops/s".toList = none ∧
+    matchThroughput " 5 ops/s".toList = none ∧ matchThroughput "5  ops/s".toList = none ∧
+    matchThroughput "5 ops".toList = none ∧ matchThroughput "5 /s".toList = none := by decide +kernel
+example : (⟨[], some "25".toList, "pages/s".toList⟩ : Match).decimal = 1/4 := by decide +kernel
+example : matchThroughput (".25".toList ++ '\t' :: ("pages/s".toList ++ "!".toList)) = some ⟨[], some "25".toList, "pages/s".toList⟩ :=
+  throughput_match_complete ⟨[], some "25".toList, "pages/s".toList⟩ '\t' "!".toList
+    ⟨by decide +kernel, by decide +kernel, by decide +kernel, ⟨"pages".toList, by decide +kernel, by decide +kernel, rfl⟩⟩ (by decide +kernel)
+example : targetThroughput (.str ".5 ops/s".toList) .null = .ok (some (1/2, "ops/s".toList)) := by decide +kernel
+example : targetThroughput (.int 10) (.int 2) = .error () ∧ targetThroughput .null (.int 4) = .ok (some (1/4, "ops/s".toList)) ∧
+    targetThroughput (.str "0 ops/s".toList) .null = .ok none ∧ targetThroughput (.bool true) .null = .error () := by decide +kernel
+
+end ThroughputExamples
 
 end Examples
 
